@@ -175,7 +175,7 @@ template <typename NumericType>
   std::ostringstream stream;
   if (absolute < 1.0) {
     // Interval: [0, 1[
-    if (absolute < 0.001) {
+    if (absolute < static_cast<NumericType>(0.001L)) {
       // Interval: [0, 0.001[
       if (absolute == 0.0) {
         // Interval: [0, 0]
@@ -187,9 +187,9 @@ template <typename NumericType>
       }
     } else {
       // Interval: [0.001, 1[
-      if (absolute < 0.1) {
+      if (absolute < static_cast<NumericType>(0.1L)) {
         // Interval: [0.001, 0.1[
-        if (absolute < 0.01) {
+        if (absolute < static_cast<NumericType>(0.01L)) {
           // Interval: [0.001, 0.01[
           stream << std::fixed
                  << std::setprecision(std::numeric_limits<NumericType>::max_digits10 + 3) << value;
